@@ -974,6 +974,7 @@ Proof.
   unfold dec_level. rewrite bind_modify. stsimpl. reflexivity.
 Qed.
 
+
 (* ---- unscoped function names: _Z <source-name> <builtin type>* *)
 Lemma unscoped_encoding_at : forall id params F,
   s = str "_Z" ++ src id ++ params ->
@@ -3160,6 +3161,118 @@ Proof.
     + unfold NS. f_equal. unfold p'. rewrite app_length. lia.
 Qed.
 
+(* the ` as Trait` ending:  <text/..>* $u20$as$u20$ <anything>  prints ">" and skips to the end of the component *)
+Definition AS : list Z := str "$u20$as$u20$".
+Definition asblock (ps : list (list Z)) (txt asrest : list Z) : list Z := enc_pairs ps ++ txt ++ AS ++ asrest.
+
+Lemma prefix_of_app : forall a b, prefix_of a (a ++ b) = true.
+Proof. induction a as [| x a IH]; intros b; [ reflexivity |]. cbn [app prefix_of]. rewrite Z.eqb_refl, IH. reflexivity. Qed.
+
+Lemma dollar_as_step : forall k p o lv ps txt asrest beyond,
+  Forall plain_txt ps -> plain_txt txt -> At p (asblock ps txt asrest ++ beyond) ->
+  let e := p + Z.of_nat (List.length (asblock ps txt asrest)) in
+  dollar_loop true s 0 (S (S k)) p (p + Z.of_nat (List.length (enc_pairs ps)) + Z.of_nat (List.length txt)) e (St p o lv) =
+  R e (St e (ao (ao (tr_pairs o ps) txt) (str ">")) lv).
+Proof.
+  intros k p o lv ps txt asrest beyond Hps Htxt H e.
+  set (dl := p + Z.of_nat (List.length (enc_pairs ps)) + Z.of_nat (List.length txt)).
+  assert (Hlen : Z.of_nat (List.length (asblock ps txt asrest)) =
+                 Z.of_nat (List.length (enc_pairs ps)) + Z.of_nat (List.length txt) + 12 + Z.of_nat (List.length asrest)).
+  { unfold asblock. repeat rewrite app_length. change (List.length AS) with 12%nat. lia. }
+  assert (HeL : e <= L). { destruct H as [_ [_ HH]]. rewrite app_length in HH. unfold e. lia. }
+  cbn [dollar_loop]. rwf (negb (dl <? e)).
+  unfold asblock in H. rewrite <- !app_assoc in H.
+  unfold bind at 1.
+  assert (Hsl : (List.length ps < S (Z.to_nat (slen s 0)))%nat).
+  { pose proof (enc_pairs_len ps) as Hel. destruct H as [Ha [_ Hb]]. rewrite app_length in Hb. unfold slen, flen in *. lia. }
+  assert (H' : At p (enc_pairs ps ++ txt ++ 36 :: (str "u20$as$u20$" ++ asrest ++ beyond))) by exact H.
+  pose proof (dots_loop_at ps (S (Z.to_nat (slen s 0))) p p o lv txt 36 (str "u20$as$u20$" ++ asrest ++ beyond) Hps Htxt ltac:(discriminate) H' Hsl) as Ed.
+  fold dl in Ed. rewrite Ed. unfold bind at 1.
+  replace (dl - (p + Z.of_nat (List.length (enc_pairs ps)))) with (Z.of_nat (List.length txt)) by (unfold dl; lia).
+  pose proof (At_app _ _ _ H') as H1.
+  rewrite (append_len_at _ p _ lv txt _ H1).
+  pose proof (At_app _ _ _ H1) as H2. fold dl in H2.
+  pose proof (At_cons _ _ _ H2) as H3.
+  destruct H3 as [H30 [H31 H32]]. rewrite H31.
+  change (str "u20$as$u20$" ++ asrest ++ beyond) with (str "u20" ++ 36 :: (str "as$u20$" ++ asrest ++ beyond)).
+  rewrite (mapping_found (str "u20") (str " ") _ ltac:(unfold rust_mappings; cbn [In]; tauto)). cbn [andb List.length str].
+  rwf (dl + Z.of_nat 3 + 2 >? e).
+  destruct H2 as [H20 [H21 H22]]. rewrite H21.
+  repeat match goal with |- context [prefix_of ?a ?b] => replace (prefix_of a b) with true by reflexivity end.
+  change [ch ">"] with (str ">").
+  unfold bind at 1. rewrite append_lit_at. unfold bind at 1.
+  assert (Hcn : consume_n s 0 (dl - p + (e - dl)) (St p (ao (ao (tr_pairs o ps) txt) (str ">")) lv)
+                = R (hd0 (enc_pairs ps ++ txt ++ AS ++ asrest ++ beyond)) (St e (ao (ao (tr_pairs o ps) txt) (str ">")) lv)).
+  { rewrite (consume_n_at _ _ (enc_pairs ps ++ txt ++ AS ++ asrest ++ beyond)); [| exact H | reflexivity |].
+    - unfold NS. stsimpl. f_equal. f_equal. lia.
+    - repeat rewrite app_length. change (List.length AS) with 12%nat. unfold dl, e. lia. }
+  rewrite Hcn. unfold bind at 1. unfold valid_ptr.
+  replace (p + (dl - p + (e - dl))) with e by lia.
+  assert (He0 : 0 <= e) by (destruct H as [Ha _]; unfold e; lia).
+  rwf (0 + e <? 0). rwt (0 + e <=? L).
+  assert (Hbe : At e beyond).
+  { unfold e. replace (enc_pairs ps ++ txt ++ AS ++ asrest ++ beyond) with (asblock ps txt asrest ++ beyond) in H
+      by (unfold asblock; rewrite <- !app_assoc; reflexivity). apply At_app. exact H. }
+  unfold strchr_from. destruct Hbe as [Hb0 [Hb1 Hb2]]. rewrite Hb1. chs.
+  pose proof (index_of_ge [] beyond (Forall_nil _)) as Ei. cbn [app List.length] in Ei.
+  destruct (index_of 36 beyond) as [d |]; [| reflexivity ].
+  cbn [dollar_loop]. assert (Ege : negb (e + d <? e) = true) by (apply negb_true_iff; apply Z.ltb_ge; lia).
+  rewrite Ege. reflexivity.
+Qed.
+
+Lemma asblock_first_dollar : forall ps txt asrest beyond, Forall plain_txt ps -> plain_txt txt ->
+  index_of 36 (asblock ps txt asrest ++ beyond) = Some (Z.of_nat (List.length (enc_pairs ps)) + Z.of_nat (List.length txt)).
+Proof.
+  intros ps txt asrest beyond Hps Htxt. unfold asblock. rewrite <- !app_assoc.
+  replace (enc_pairs ps ++ txt ++ AS ++ asrest ++ beyond) with ((enc_pairs ps ++ txt) ++ 36 :: (str "u20$as$u20$" ++ asrest ++ beyond))
+    by (rewrite <- app_assoc; reflexivity).
+  rewrite index_of_first; [ rewrite app_length; f_equal; lia |].
+  pose proof (rblock_nodollar (mkrg ps txt (str "C") (str ",")) ltac:(repeat split; try assumption; unfold rust_mappings; cbn [In]; tauto)) as Hb.
+  exact Hb.
+Qed.
+
+Lemma dollar_groups_as : forall gs k p o lv ps txt asrest beyond,
+  Forall rgroup_ok gs -> Forall plain_txt ps -> plain_txt txt ->
+  At p (enc_groups gs ++ asblock ps txt asrest ++ beyond) -> noas gs (asblock ps txt asrest ++ beyond) ->
+  (List.length gs + 1 < k)%nat ->
+  let e := p + Z.of_nat (List.length (enc_groups gs)) + Z.of_nat (List.length (asblock ps txt asrest)) in
+  let d0 := match gs with [] => p + Z.of_nat (List.length (enc_pairs ps)) + Z.of_nat (List.length txt)
+                        | g :: _ => p + Z.of_nat (List.length (rblock g)) end in
+  dollar_loop true s 0 k p d0 e (St p o lv) =
+  R e (St e (ao (ao (tr_pairs (tr_groups o gs) ps) txt) (str ">")) lv).
+Proof.
+  induction gs as [| g gs IH]; intros k p o lv ps txt asrest beyond Hok Hps Htxt H Hna Hk; cbv zeta.
+  - cbn [enc_groups map List.concat app List.length tr_groups fold_left] in *.
+    destruct k as [| [| k]]; try lia.
+    replace (p + Z.of_nat 0 + Z.of_nat (List.length (asblock ps txt asrest))) with (p + Z.of_nat (List.length (asblock ps txt asrest))) by lia.
+    apply (dollar_as_step k p o lv ps txt asrest beyond Hps Htxt H).
+  - inversion Hok as [| ? ? Hg Hgs ]; subst. destruct Hna as [Hna1 Hna2].
+    destruct k as [| k]; [ lia |]. cbn [List.length] in Hk.
+    unfold enc_groups in *. cbn [map List.concat] in *. fold (enc_groups gs) in *.
+    rewrite <- app_assoc in H.
+    set (e := p + Z.of_nat (List.length (enc_group g ++ enc_groups gs)) + Z.of_nat (List.length (asblock ps txt asrest))).
+    assert (HeL : e <= L).
+    { destruct H as [_ [_ HH]]. unfold e. repeat rewrite app_length in *. lia. }
+    rewrite (dollar_step k g p o lv (enc_groups gs ++ asblock ps txt asrest ++ beyond) e Hg H); [| unfold e; rewrite app_length; lia | exact HeL | exact Hna1 ].
+    cbv zeta. set (p' := p + Z.of_nat (List.length (enc_group g))).
+    pose proof (At_app _ _ _ H) as H'. fold p' in H'.
+    assert (Heq : e = p' + Z.of_nat (List.length (enc_groups gs)) + Z.of_nat (List.length (asblock ps txt asrest)))
+      by (unfold e, p'; rewrite app_length; lia).
+    pose proof (IH k p' (tr_group o g) lv ps txt asrest beyond Hgs Hps Htxt H' Hna2 ltac:(lia)) as E. cbv zeta in E.
+    rewrite <- Heq in E.
+    unfold strchr_from. chs. pose proof H' as [H'0 [H'1 H'2]]. rewrite H'1.
+    destruct gs as [| g2 gs2].
+    + cbn [enc_groups map List.concat app] in *. rewrite (asblock_first_dollar ps txt asrest beyond Hps Htxt).
+      replace (p' + (Z.of_nat (List.length (enc_pairs ps)) + Z.of_nat (List.length txt)))
+        with (p' + Z.of_nat (List.length (enc_pairs ps)) + Z.of_nat (List.length txt)) by lia.
+      rewrite E. cbn [tr_groups fold_left]. reflexivity.
+    + inversion Hgs as [| ? ? Hg2 _ ]; subst.
+      unfold enc_groups at 1. cbn [map List.concat]. fold (enc_groups gs2).
+      unfold enc_group at 1. rewrite <- !app_assoc. cbn [app].
+      rewrite (index_of_first (rblock g2) _ (rblock_nodollar g2 Hg2)).
+      rewrite E. cbn [tr_groups fold_left]. reflexivity.
+Qed.
+
 (* a component with escapes:  <number> ( <text/..>* $code$ )+ <tail>  *)
 Definition rd_text (gs : list rgroup) (tl : list Z) : list Z := enc_groups gs ++ tl.
 Definition rd_ok (gs : list rgroup) (tl rest : list Z) : Prop :=
@@ -3232,6 +3345,83 @@ Proof.
   unfold bind at 1.
   rewrite (consume_n_at _ (Z.of_nat (List.length tl)) (tl ++ rest)); [| exact Hpf | reflexivity | rewrite app_length; lia ].
   reflexivity.
+Qed.
+
+(* ... ending in ` as Trait` *)
+Definition ra_text (gs : list rgroup) (ps : list (list Z)) (txt asrest : list Z) : list Z := enc_groups gs ++ asblock ps txt asrest.
+Definition ra_ok (gs : list rgroup) (ps : list (list Z)) (txt asrest rest : list Z) : Prop :=
+  Forall rgroup_ok gs /\ Forall plain_txt ps /\ plain_txt txt /\ starts_nondigit (ra_text gs ps txt asrest) /\
+  0 < Z.of_nat (List.length (ra_text gs ps txt asrest)) < 1000000000 /\
+  ((Z.of_nat (List.length (ra_text gs ps txt asrest)) =? 17) && hash17 (ra_text gs ps txt asrest)) = false /\
+  noas gs (asblock ps txt asrest ++ rest).
+Definition ra_src (gs : list rgroup) (ps : list (list Z)) (txt asrest : list Z) : list Z :=
+  dec (Z.of_nat (List.length (ra_text gs ps txt asrest))) ++ ra_text gs ps txt asrest.
+
+Lemma source_name_dollar_as_at : forall p o lv fnm gs ps txt asrest rest,
+  At p (ra_src gs ps txt asrest ++ rest) -> ra_ok gs ps txt asrest rest ->
+  dd_source_name true s 0 (NS p o lv fnm) =
+  R 0 (St (p + Z.of_nat (List.length (ra_src gs ps txt asrest))) (ao (ao (tr_pairs (tr_groups (sep_out o fnm) gs) ps) txt) (str ">")) lv).
+Proof.
+  intros p o lv fnm gs ps txt asrest rest H [Hok [Hps [Htxt [Hsn [Hn [Hh Hna]]]]]].
+  assert (Hsn2 : starts_nondigit (ra_text gs ps txt asrest ++ rest)).
+  { clear - Hsn Hn. destruct (ra_text gs ps txt asrest) as [| x c']; [ cbn [List.length] in Hn; lia | exact Hsn ]. }
+  set (c := ra_text gs ps txt asrest) in *. set (n := Z.of_nat (List.length c)) in *.
+  assert (Hndef : n = Z.of_nat (List.length c)) by reflexivity.
+  unfold ra_src in *. fold c in H. fold n in H. fold c. fold n. rewrite <- app_assoc in H.
+  unfold dd_source_name. unfold NS at 1.
+  erewrite bind_R; [| apply (number_at _ n (c ++ rest)); [ exact H | reflexivity | exact Hn | exact Hsn2 ] ].
+  rwf (n <? 0).
+  apply At_app in H. set (p0 := p + Z.of_nat (List.length (dec n))) in *.
+  stsimpl. fold p0.
+  assert (Hfin : p + Z.of_nat (List.length (dec n ++ c)) = p0 + n) by (rewrite app_length; unfold p0; lia).
+  rewrite Hfin. clearbody p0.
+  assert (Hp0n : p0 + n <= L) by (destruct H as [H0 [H1 H2]]; rewrite app_length in H2; lia).
+  pose proof (At_le _ _ H) as Hp0r.
+  rewrite bind_eof. stsimpl. rwf (p0 >=? L).
+  rewrite bind_gets, bind_gets. stsimpl. cbn [Z.eqb negb andb]. rwf (n >? L - p0).
+  rewrite bind_gets, bind_getb, bind_gets. stsimpl. cbn [Z.eqb negb andb orb].
+  assert (Hh2 : ((n =? 17) && hash17 (suffix s 0 p0)) = false).
+  { destruct H as [H0 [H1 H2]]. rewrite H1. destruct (n =? 17) eqn:E17; [| reflexivity ]. cbn [andb] in *.
+    rewrite hash17_app by lia. exact Hh. }
+  rewrite Hh2.
+  change (mkst p0 L o 0 lv 0 false fnm false false) with (NS p0 o lv fnm).
+  unfold bind at 1. rewrite append_separator_at.
+  (* the first '$' *)
+  assert (Hat : At p0 (enc_groups gs ++ asblock ps txt asrest ++ rest)) by (unfold c, ra_text in H; rewrite <- app_assoc in H; exact H).
+  set (d0 := match gs with [] => p0 + Z.of_nat (List.length (enc_pairs ps)) + Z.of_nat (List.length txt)
+                        | g :: _ => p0 + Z.of_nat (List.length (rblock g)) end).
+  assert (Hn2 : n = Z.of_nat (List.length (enc_groups gs)) + Z.of_nat (List.length (asblock ps txt asrest))).
+  { rewrite Hndef. unfold c, ra_text. rewrite app_length. lia. }
+  assert (Hsc : strchr_from s 0 p0 (ch "$") = Some d0 /\ d0 < p0 + n).
+  { unfold strchr_from. chs. destruct H as [H0 [H1 H2]]. rewrite H1. unfold c, ra_text. rewrite <- app_assoc.
+    destruct gs as [| g gs'].
+    - cbn [enc_groups map List.concat app]. rewrite (asblock_first_dollar ps txt asrest rest Hps Htxt). unfold d0.
+      split; [ f_equal; lia |]. cbn [enc_groups map List.concat List.length] in Hn2. unfold asblock in Hn2.
+      repeat rewrite app_length in Hn2. change (List.length AS) with 12%nat in Hn2. lia.
+    - inversion Hok as [| ? ? Hg Hgs ]; subst.
+      unfold enc_groups at 1. cbn [map List.concat]. fold (enc_groups gs'). unfold enc_group at 1. rewrite <- !app_assoc. cbn [app].
+      rewrite (index_of_first (rblock g) _ (rblock_nodollar g Hg)). unfold d0. split; [ reflexivity |].
+      unfold enc_groups in Hn2. cbn [map List.concat] in Hn2. unfold enc_group at 1 in Hn2. repeat rewrite app_length in Hn2. cbn [List.length] in Hn2. lia. }
+  destruct Hsc as [Hsc Hd0]. rewrite Hsc.
+  rwf (d0 >? p0 + n).
+  assert (Hgl : (List.length gs + 1 < S (Z.to_nat (slen s 0)))%nat).
+  { pose proof (enc_groups_len gs) as Hel. destruct H as [Ha [_ Hb]]. unfold c, ra_text, asblock in Hb. repeat rewrite app_length in Hb.
+    change (List.length AS) with 12%nat in Hb. unfold slen, flen in *. lia. }
+  pose proof (dollar_groups_as gs (S (Z.to_nat (slen s 0))) p0 (sep_out o fnm) lv ps txt asrest rest Hok Hps Htxt Hat Hna Hgl) as E.
+  cbv zeta in E. fold d0 in E.
+  replace (p0 + n) with (p0 + Z.of_nat (List.length (enc_groups gs)) + Z.of_nat (List.length (asblock ps txt asrest))) by lia.
+  unfold bind at 1. rewrite E.
+  set (pf := p0 + Z.of_nat (List.length (enc_groups gs)) + Z.of_nat (List.length (asblock ps txt asrest))) in *.
+  replace (pf - pf) with (Z.of_nat (List.length (@nil Z))) by (cbn; lia).
+  assert (Hpf : At pf ([] ++ rest)).
+  { unfold pf. cbn [app]. replace (p0 + Z.of_nat (List.length (enc_groups gs)) + Z.of_nat (List.length (asblock ps txt asrest)))
+      with (p0 + Z.of_nat (List.length (enc_groups gs ++ asblock ps txt asrest))) by (rewrite app_length; lia).
+    apply At_app. rewrite <- app_assoc. exact Hat. }
+  unfold bind at 1. rewrite (append_len_at pf pf _ lv [] rest Hpf).
+  unfold bind at 1.
+  rewrite (consume_n_at _ (Z.of_nat (List.length (@nil Z))) ([] ++ rest)); [| exact Hpf | reflexivity | cbn [List.length app]; lia ].
+  unfold NS, ao. stsimpl. cbn [List.length]. replace (pf + Z.of_nat 0) with pf by lia.
+  destruct (tr_pairs (tr_groups (sep_out o fnm) gs) ps) as [y |]; rewrite ?app_nil_r; reflexivity.
 Qed.
 
 (* ---- a plain component inside a name that has `$` elsewhere *)
@@ -3335,10 +3525,16 @@ Proof.
 Qed.
 
 (* ---- components of a Rust path *)
-Inductive rcomp := RPlain (id : list Z) | RDollar (gs : list rgroup) (tl : list Z).
-Definition rc_enc (c : rcomp) : list Z := match c with RPlain id => src id | RDollar gs tl => rd_src gs tl end.
+Inductive rcomp := RPlain (id : list Z) | RDollar (gs : list rgroup) (tl : list Z)
+  | RDollarAs (gs : list rgroup) (ps : list (list Z)) (txt asrest : list Z).
+Definition rc_enc (c : rcomp) : list Z :=
+  match c with RPlain id => src id | RDollar gs tl => rd_src gs tl | RDollarAs gs ps txt asrest => ra_src gs ps txt asrest end.
 Definition rc_out (c : rcomp) (o : option (list Z)) (fnm : bool) : option (list Z) :=
-  match c with RPlain id => add_out (sep_out o fnm) id | RDollar gs tl => ao (tr_groups (sep_out o fnm) gs) tl end.
+  match c with
+  | RPlain id => add_out (sep_out o fnm) id
+  | RDollar gs tl => ao (tr_groups (sep_out o fnm) gs) tl
+  | RDollarAs gs ps txt asrest => ao (ao (tr_pairs (tr_groups (sep_out o fnm) gs) ps) txt) (str ">")
+  end.
 Definition rc_ok (c : rcomp) : Prop :=
   match c with
   | RPlain id => ident_okb id = true
@@ -3346,14 +3542,21 @@ Definition rc_ok (c : rcomp) : Prop :=
       gs <> [] /\ Forall rgroup_ok gs /\ Forall (fun x => x <> 36) tl /\ starts_nondigit (rd_text gs tl) /\
       0 < Z.of_nat (List.length (rd_text gs tl)) < 1000000000 /\
       ((Z.of_nat (List.length (rd_text gs tl)) =? 17) && hash17 (rd_text gs tl)) = false /\ noas_c gs tl
+  | RDollarAs gs ps txt asrest =>
+      Forall rgroup_ok gs /\ Forall plain_txt ps /\ plain_txt txt /\ starts_nondigit (ra_text gs ps txt asrest) /\
+      0 < Z.of_nat (List.length (ra_text gs ps txt asrest)) < 1000000000 /\
+      ((Z.of_nat (List.length (ra_text gs ps txt asrest)) =? 17) && hash17 (ra_text gs ps txt asrest)) = false /\
+      noas_c gs (asblock ps txt asrest)
   end.
 
 Lemma rc_enc_hd : forall c rest, rc_ok c -> 48 <= hd0 (rc_enc c ++ rest) <= 57.
 Proof.
-  intros c rest H. destruct c as [id | gs tl]; cbn [rc_enc rc_ok] in *.
+  intros c rest H. destruct c as [id | gs tl | gs ps txt asrest]; cbn [rc_enc rc_ok] in *.
   - apply src_hd_digit. exact H.
   - destruct H as [_ [_ [_ [_ [Hn _]]]]]. unfold rd_src. rewrite <- app_assoc.
     destruct (hd0_dec_digit _ (rd_text gs tl ++ rest) Hn) as [Hd _]. apply isdigit_range. exact Hd.
+  - destruct H as [_ [_ [_ [_ [Hn _]]]]]. unfold ra_src. rewrite <- app_assoc.
+    destruct (hd0_dec_digit _ (ra_text gs ps txt asrest ++ rest) Hn) as [Hd _]. apply isdigit_range. exact Hd.
 Qed.
 
 Lemma unq_rcomp : forall c k p o lv fnm rest, rc_ok c -> At p (rc_enc c ++ rest) -> rest_ok rest ->
@@ -3363,10 +3566,13 @@ Proof.
   intros c k p o lv fnm rest Hok H Hr.
   assert (HB : hd0 rest <> 66) by (destruct Hr; lia).
   apply (unq_of_src k p o lv fnm (rc_enc c) rest); [ exact H | apply rc_enc_hd; exact Hok | | apply At_app; exact H | exact HB ].
-  destruct c as [id | gs tl]; cbn [rc_enc rc_out rc_ok] in *.
+  destruct c as [id | gs tl | gs ps txt asrest]; cbn [rc_enc rc_out rc_ok] in *.
   - apply (source_name_plain2 p o lv fnm id rest H Hok).
   - destruct Hok as [A [B [C [D [E [F G]]]]]].
     apply (source_name_dollar_at p o lv fnm gs tl rest H).
+    repeat split; try assumption; try lia. apply noas_lift; assumption.
+  - destruct Hok as [A [B [C [D [E [F G]]]]]].
+    apply (source_name_dollar_as_at p o lv fnm gs ps txt asrest rest H).
     repeat split; try assumption; try lia. apply noas_lift; assumption.
 Qed.
 
@@ -3407,6 +3613,96 @@ Proof.
     replace (p + Z.of_nat (List.length (rc_enc c)) + Z.of_nat (List.length (List.concat (map rc_enc cs))))
       with (p + Z.of_nat (List.length (rc_enc c) + List.length (List.concat (map rc_enc cs)))) by lia.
     destruct cs; reflexivity.
+Qed.
+
+(* _ZN <component>+ 17h<hash> E  with escapes in the components *)
+Lemma rust2_encoding_at : forall c cs h F x,
+  s = str "_ZN" ++ rcs_enc (c :: cs) ++ str "17" ++ h ++ [69] ->
+  Forall rc_ok (c :: cs) -> hash_okb h = true -> rcs_out None true (c :: cs) = Some x -> L <= INT_MAX ->
+  (List.length (c :: cs) + 8 <= F)%nat ->
+  run true s 0 F FEncoding (st0 L) = R 0 (NS L (Some x) 0 false).
+Proof.
+  intros c cs h F x Hs Hok Hh Hx HL HF.
+  set (comps := c :: cs) in *.
+  set (body := rcs_enc comps ++ str "17" ++ h ++ [69]) in *.
+  assert (H0 : At 0 (95 :: 90 :: 78 :: body)).
+  { unfold At. split; [ lia |]. split; [ unfold suffix; cbn [Z.add Z.to_nat skipn]; rewrite Hs; reflexivity |].
+    unfold flen. rewrite Hs. cbn [str app List.length]. lia. }
+  pose proof (At_cons _ _ _ H0) as H1. pose proof (At_cons _ _ _ H1) as H2. cbn [Z.add Pos.add] in H1, H2.
+  assert (Hhl : List.length h = 17%nat).
+  { unfold hash_okb in Hh. apply andb_prop in Hh. destruct Hh as [Hlen _]. apply Nat.eqb_eq in Hlen. exact Hlen. }
+  assert (HLen : L = 3 + Z.of_nat (List.length (rcs_enc comps)) + 19 + 1).
+  { destruct H0 as [_ [_ HH]]. cbn [List.length] in HH. unfold body in HH.
+    repeat rewrite app_length in HH. cbn [List.length str] in HH. lia. }
+  destruct F as [| F1]; [ lia |]. destruct F1 as [| F2]; [ lia |]. destruct F2 as [| F3]; [ lia |].
+  change (run true s 0 (S (S (S F3))) FEncoding) with (dd_encoding s 0 (run true s 0 (S (S F3)))).
+  unfold dd_encoding, st0.
+  pose proof (At_lt _ _ _ H0) as HL0.
+  rewrite bind_eof. stsimpl. rwf (0 >=? L). cbn [Z.eqb].
+  rewrite bind_gets. stsimpl. cbn [Z.eqb].
+  erewrite bind_R; [| apply (consume_n_at _ 2 (95 :: 90 :: 78 :: body)); [ exact H0 | reflexivity | cbn [List.length]; lia ] ].
+  stsimpl. cbn [Z.add]. unfold inc_level. rewrite bind_modify. stsimpl. cbn [Z.add].
+  erewrite bind_R; [| apply (curr_at _ (78 :: body)); [ exact H2 | reflexivity ] ].
+  cbn [hd0]. chs. cbn [Z.eqb Pos.eqb orb].
+  set (pe := 3 + Z.of_nat (List.length (rcs_enc comps))).
+  assert (H3 : At pe (str "17" ++ h ++ [69])).
+  { unfold pe. apply (At_app _ (rcs_enc comps)). apply At_cons in H2. exact H2. }
+  assert (H4 : At (pe + 19) [69]).
+  { apply At_app in H3. apply At_app in H3. rewrite Hhl in H3. cbn [List.length str] in H3.
+    replace (pe + Z.of_nat 2 + Z.of_nat 17) with (pe + 19) in H3 by lia. exact H3. }
+  assert (Hname : run true s 0 (S (S F3)) FName (NS 2 None 1 true) = R 0 (NS L (Some x) 1 false)).
+  { change (run true s 0 (S (S F3)) FName) with (dd_name true s 0 (run true s 0 (S F3))).
+    unfold dd_name. unfold NS at 1.
+    erewrite bind_R; [| apply (curr_at _ (78 :: body)); [ exact H2 | reflexivity ] ].
+    pose proof (At_lt _ _ _ H2).
+    rewrite bind_eof. stsimpl. rwf (2 >=? L). cbn [hd0]. chs. cbn [Z.eqb Pos.eqb].
+    change (run true s 0 (S F3) FNestedName) with (dd_nested_name s 0 (run true s 0 F3)).
+    unfold dd_nested_name.
+    rewrite bind_eof. stsimpl. rwf (2 >=? L). cbn [Z.eqb].
+    unfold expect at 1. unfold consume.
+    erewrite bind_R; [| apply (consume_n_at _ 1 (78 :: body)); [ exact H2 | reflexivity | cbn [List.length]; lia ] ].
+    cbn [hd0]. chs. cbn [Z.eqb Pos.eqb]. stsimpl.
+    unfold inc_level. rewrite bind_modify. stsimpl. cbn [Z.add Pos.add].
+    fold (NS 3 None 2 true).
+    erewrite bind_R.
+    2:{ replace F3 with (List.length comps + S (S (S (F3 - List.length comps - 3))))%nat at 1 by (cbn [List.length] in *; lia).
+        rewrite (nested_rcomps comps _ 3 None 2 true (str "17" ++ h ++ [69])); try assumption.
+        - rewrite Hx. change (match comps with [] => true | _ :: _ => false end) with false. fold pe.
+          change (run true s 0 (S (S (S (F3 - List.length comps - 3)))) (LNested 0))
+            with (nested_loop true s 0 (run true s 0 (S (S (F3 - List.length comps - 3)))) 0).
+          unfold nested_loop. unfold NS at 1. cbn [str app] in H3.
+          erewrite bind_R; [| apply (curr_at _ (49 :: 55 :: h ++ [69])); [ exact H3 | reflexivity ] ].
+          pose proof (At_lt _ _ _ H3).
+          rewrite bind_eof. stsimpl. rwf (pe >=? L). cbn [hd0]. chs. cbn [Z.eqb Pos.eqb orb negb].
+          erewrite bind_R; [| apply (peek1_at _ 49 (55 :: h ++ [69])); [ exact H3 | reflexivity ] ].
+          cbn [andb orb]. unfold islower, isdigit.
+          cbn [Z.leb Z.compare Pos.compare Pos.compare_cont andb orb].
+          fold (NS pe (Some x) 2 false).
+          erewrite bind_R; [| apply (unq_hash _ pe _ 2 false h [69]); [ exact H3 | exact Hh | exact HL | cbn; lia ] ].
+          apply (nested_end_plain _ (pe + 19) _ 2 false []). exact H4.
+        - apply At_cons in H2. exact H2.
+        - left. cbn. lia. }
+    unfold expect. unfold consume. unfold NS at 1.
+    erewrite bind_R; [| apply (consume_n_at _ 1 [69]); [ exact H4 | reflexivity | cbn [List.length]; lia ] ].
+    cbn [hd0]. chs. cbn [Z.eqb Pos.eqb]. stsimpl.
+    unfold dec_level. rewrite bind_modify. stsimpl. unfold ret, NS. cbn [Z.sub Z.add Z.opp Z.pos_sub Pos.pred_double].
+    replace (pe + 19 + 1) with L by (unfold pe; lia). reflexivity. }
+  fold (NS 2 None 1 true). erewrite bind_R; [| exact Hname ].
+  cbn [Z.ltb Z.compare].
+  assert (Hend : At L []).
+  { replace L with (pe + 19 + Z.of_nat (List.length [69])) by (unfold pe; cbn [List.length]; lia).
+    apply (At_app _ [69] []). exact H4. }
+  (* the type loop stops at once: end of string *)
+  erewrite bind_R.
+  2:{ change (run true s 0 (S (S F3)) LEncTypes) with (enc_types_loop s 0 (run true s 0 (S F3))).
+      unfold enc_types_loop, NS. rewrite bind_eof. stsimpl. rwt (L >=? L).
+      erewrite bind_R; [| apply (curr_at _ []); [ exact Hend | reflexivity ] ].
+      cbn [Z.eqb orb Pos.eqb]. reflexivity. }
+  erewrite bind_R; [| apply (curr_at _ []); [ exact Hend | reflexivity ] ].
+  cbn [hd0]. chs. cbn [Z.eqb]. rewrite bind_ret.
+  erewrite bind_R; [| apply (curr_at _ []); [ exact Hend | reflexivity ] ].
+  cbn [hd0 Z.eqb]. rewrite bind_ret.
+  unfold dec_level. rewrite bind_modify. stsimpl. reflexivity.
 Qed.
 End Walk.
 
@@ -4067,4 +4363,65 @@ Proof.
     apply PT_nil.
   - vm_compute. reflexivity.
   - vm_compute. reflexivity.
+Qed.
+
+(* ================================================================ Rust legacy names with escapes *)
+(* _ZN <component>+ 17h<16 hex digits> E  where a component is an identifier, or
+     <number> ( (<text> ..)* <text> $<code>$ )+ <tail>                      ($LT$ $GT$ $RF$ $u20$ ... and `..` -> `::`), or
+     <number> ( (<text> ..)* <text> $<code>$ )* (<text> ..)* <text> $u20$as$u20$ <anything>     (` as Trait` is dropped, `>` printed) *)
+Definition rust2_mangle (cs : list rcomp) (h : list Z) : list Z := str "_ZN" ++ rcs_enc cs ++ str "17" ++ h ++ [69].
+Definition rust2_name (cs : list rcomp) : list Z := match rcs_out None true cs with Some x => x | None => [] end.
+
+Lemma rcs_enc_length : forall cs, Forall rc_ok cs -> (List.length cs <= List.length (rcs_enc cs))%nat.
+Proof.
+  induction cs as [| c cs IH]; intros H; [ cbn; lia |]. inversion H; subst. specialize (IH ltac:(assumption)).
+  unfold rcs_enc in *. cbn [map List.concat List.length]. rewrite app_length.
+  assert (1 <= List.length (rc_enc c))%nat.
+  { pose proof (rc_enc_hd c [] ltac:(assumption)) as Hd. rewrite app_nil_r in Hd. destruct (rc_enc c); [ cbn in Hd; lia | cbn; lia ]. }
+  lia.
+Qed.
+
+Theorem roundtrip_rust2 : forall c cs h, Forall rc_ok (c :: cs) -> hash_okb h = true ->
+  Z.of_nat (List.length (rust2_mangle (c :: cs) h)) <= INT_MAX ->
+  demangle (rust2_mangle (c :: cs) h) = Str (rust2_name (c :: cs)).
+Proof.
+  intros c cs h Hok Hh HL.
+  set (s := rust2_mangle (c :: cs) h) in *.
+  assert (Hs : s = str "_ZN" ++ rcs_enc (c :: cs) ++ str "17" ++ h ++ [69]) by reflexivity.
+  assert (Hx : exists x, rcs_out None true (c :: cs) = Some x).
+  { cbn [rcs_out]. assert (G : forall cs0 o, exists x, rcs_out (Some o) false cs0 = Some x).
+    { induction cs0 as [| c0 cs0 IH]; intros o; [ eexists; reflexivity |]. cbn [rcs_out].
+      destruct c0; cbn [rc_out]; unfold add_out, ao; apply IH. }
+    destruct c; cbn [rc_out]; unfold add_out, ao; apply G. }
+  destruct Hx as [x Hx].
+  assert (Hfuel : (List.length (c :: cs) + 8 <= fuel_of s)%nat).
+  { unfold fuel_of. rewrite Hs. cbn [str]. repeat rewrite app_length. cbn [List.length].
+    pose proof (rcs_enc_length _ Hok). cbn [List.length] in *. lia. }
+  unfold rust2_name. rewrite Hx.
+  apply demangle_of_encoding.
+  - rewrite Hs. reflexivity.
+  - unfold mangled_form, stripped. rewrite Hs. reflexivity.
+  - apply (rust2_encoding_at s c cs h (fuel_of s) x Hs Hok Hh Hx); [ unfold flen; exact HL | exact Hfuel ].
+Qed.
+
+(* non-vacuity: the trait-impl name of utils/demangle.c's own unit test *)
+Definition rc_stdout : rcomp :=
+  RDollarAs [ mkrg [] (str "_") (str "LT") (str "<"); mkrg [] [] (str "RF") (str "&") ]
+            [ str "std"; str "io"; str "stdio" ] (str "Stdout") (str "std..io..Write$GT$").
+Example roundtrip_examples8 :
+  Forall rc_ok [rc_stdout; RPlain (str "write_fmt")] /\
+  rust2_mangle [rc_stdout; RPlain (str "write_fmt")] (str "h75c561f414a62159") =
+    str "_ZN61_$LT$$RF$std..io..stdio..Stdout$u20$as$u20$std..io..Write$GT$9write_fmt17h75c561f414a62159E" /\
+  rust2_name [rc_stdout; RPlain (str "write_fmt")] = str "_<&std::io::stdio::Stdout>::write_fmt".
+Proof.
+  split; [| split; vm_compute; reflexivity ].
+  constructor; [| constructor; [ reflexivity | constructor ] ].
+  cbn [rc_ok rc_stdout]. split.
+  { constructor; [| constructor; [| constructor ] ]; (split; [ constructor | split; [ repeat constructor; discriminate | unfold rust_mappings; cbn [In]; tauto ] ]). }
+  split. { repeat constructor; discriminate. }
+  split. { repeat constructor; discriminate. }
+  split. { vm_compute. reflexivity. }
+  split. { vm_compute. split; reflexivity. }
+  split. { vm_compute. reflexivity. }
+  cbn [noas_c rg_code]. split; [ intros E; discriminate |]. split; [ intros E; discriminate | exact I ].
 Qed.
